@@ -126,7 +126,12 @@ SEGRE = re.compile(r"^(?:ram:)?(MAIN_[0-9a-z]{16})\.(.+)$")
 LOCKNAME = "MAIN_WRITELOCK"
 # parts of a fingerprint. With the W3 codec the per-document data (stored fields, lengths, vector offsets, sort columns)
 # are column files that a reader opens on first use; only the term index / postings are opened with the reader.
-OPEN_PARTS = ("doc_count", "keys", "stored", "terms")       # what check_fresh looks at (opens the stored-fields column)
+# what check_fresh looks at (opens the stored-fields column). schema = field names of Searcher.schema / reader.schema;
+# extra_fields = for every field x<n> added by a writer's add_field(): documents found by Term(x, "hello" / "world")
+# (Searcher.docs_for_query) and the lexicon of x
+OPEN_PARTS = ("doc_count", "keys", "stored", "terms", "schema", "extra_fields")
+BASE_FIELDS = ("c", "id", "k", "n", "t")
+EXTRA_WORDS = ("hello", "world")
 LAZY_PARTS = ("lengths", "vectors", "columns", "leaf_columns", "sorted_by_n", "by_c_column", "scored")
 # further read APIs (never part of check_fresh; in the 'lazy' / 'untouched' modes first used after the hold):
 #   iter_docs     IndexReader.iter_docs / all_stored_fields
@@ -139,13 +144,14 @@ LAZY_PARTS = ("lengths", "vectors", "columns", "leaf_columns", "sorted_by_n", "b
 #   documents     Searcher.document(id=..) / document_number(id=..) / documents(k=..)
 #   sorted_more   top-3 of a reversed sort by n; top-2 of a term query sorted by n
 #   similar       Searcher.key_terms / more_like
+#   extra_search  scored search for Term(x, "hello") on every added field x
 EXTRA_PARTS = ("iter_docs", "positions", "vector_as", "lexicon", "term_stats", "length_stats", "documents",
-               "sorted_more", "similar")
+               "sorted_more", "similar", "extra_search")
 ALL_PARTS = OPEN_PARTS + LAZY_PARTS + EXTRA_PARTS
 # can be affected by the listed loose-segment finding: the parts that read per-document column files (stored fields,
 # lengths, vector offsets / vector postings, sort columns), which a W3 reader opens on first use
 COLUMN_BACKED = ("keys", "stored") + LAZY_PARTS + ("iter_docs", "vector_as", "length_stats", "documents", "sorted_more",
-                                                   "similar")
+                                                   "similar", "extra_search")
 # not derived from the dict model: compared only between two probes of the same held searcher (term statistics and the
 # lexicon of a segment with deletions still count the deleted documents; similarity scores are C09's business)
 UNMODELLED = ("scored", "leaf_columns", "lexicon", "term_stats", "length_stats", "similar")
@@ -248,6 +254,26 @@ def fingerprint(searcher, parts=None, errors=None):
             res["%s:%r" % (fieldname, tbytes)] = sorted(plist)
         return res
     run("terms", terms)
+    run("schema", lambda: {"searcher": sorted(searcher.schema.names()), "reader": sorted(r.schema.names())})
+
+    def xfields():
+        return sorted(n_ for n_ in searcher.schema.names() if n_.startswith("x"))
+
+    def extra_fields():
+        res = {}
+        for x in xfields():
+            d = {}
+            for wd in EXTRA_WORDS:
+                d[wd] = sorted(km[dn][0] if dn in km else "?doc%d" % dn
+                               for dn in searcher.docs_for_query(query.Term(x, wd)))
+            lex = []
+            for b in r.lexicon(x):
+                if r.postings(x, b).is_active():        # (see "terms": a term of deleted documents only may linger)
+                    lex.append(b.decode("utf-8") if isinstance(b, bytes) else b)
+            d["lexicon"] = sorted(lex)
+            res[x] = d
+        return res
+    run("extra_fields", extra_fields)
     run("lengths", lambda: dict((km[dn][0], r.doc_field_length(dn, "t")) for dn in km))
 
     def vectors():
@@ -296,9 +322,12 @@ def fingerprint(searcher, parts=None, errors=None):
     def iter_docs():
         a = {}
         dns = []
+        names = set(searcher.schema.names())
         for dn, sf in r.iter_docs():
             dns.append(dn)
-            a[sf.get("id", "?doc%d" % dn)] = dict(sf)
+            # (iter_docs / all_stored_fields return the raw stored dictionaries, fields removed by remove_field()
+            # included - "may or may not remove existing data": projected on the schema, as stored_fields() does)
+            a[sf.get("id", "?doc%d" % dn)] = dict((f, v) for f, v in sf.items() if f in names)
         return {"iter_docs": a, "docnums_are_all_doc_ids": sorted(dns) == sorted(km),
                 "all_stored_fields": sorted(sf.get("id", "?") for sf in r.all_stored_fields())}
     run("iter_docs", iter_docs)
@@ -371,14 +400,27 @@ def fingerprint(searcher, parts=None, errors=None):
         return {"key_terms": [(txt(t), round(sc, 6)) for t, sc in searcher.key_terms(dns, "t", numterms=3)],
                 "more_like": [(h["id"], round(h.score, 6)) for h in searcher.more_like(dns[0], "t", top=3)]}
     run("similar", similar)
+    run("extra_search", lambda: dict((x, sorted(h["id"] for h in searcher.search(query.Term(x, "hello"), limit=None)))
+                                     for x in xfields()))
     return out
 
 
-def expected(model, parts=None):
-    """The same parts computed from the dict model {key: {'id','t','n','k'}} alone (scored: not modelled)."""
+def expected(model, parts=None, extras=()):
+    """The same parts computed from the dict model {key: {'id','t','n','k', x..}} and the set `extras` of the fields
+    added by add_field() (and not removed since) alone (scored: not modelled)."""
     want = parts or ALL_PARTS
     out = {}
     keys = sorted(model)
+    extras = sorted(extras)
+    STORED = ("id", "t", "n", "k") + tuple(extras)
+    if "schema" in want:
+        out["schema"] = {"searcher": sorted(BASE_FIELDS + tuple(extras)), "reader": sorted(BASE_FIELDS + tuple(extras))}
+    if "extra_fields" in want:
+        out["extra_fields"] = dict((x, dict(
+            [(wd, [k for k in keys if wd in (model[k].get(x) or "").split()]) for wd in EXTRA_WORDS] +
+            [("lexicon", sorted(set(w_ for k in keys for w_ in (model[k].get(x) or "").split())))])) for x in extras)
+    if "extra_search" in want:
+        out["extra_search"] = dict((x, [k for k in keys if "hello" in (model[k].get(x) or "").split()]) for x in extras)
     if "keys" in want:
         out["keys"] = keys
     if "doc_count" in want:
@@ -387,7 +429,7 @@ def expected(model, parts=None):
         st = {}
         for k in keys:
             d = model[k]
-            st[k] = dict((f, d[f]) for f in ("id", "t", "n", "k") if d.get(f) is not None)
+            st[k] = dict((f, d[f]) for f in STORED if d.get(f) is not None)
         out["stored"] = st
     if "terms" in want:
         terms = {}
@@ -415,7 +457,7 @@ def expected(model, parts=None):
             groups.setdefault(model[k]["c"], []).append(k)
         out["by_c_column"] = {"order": sorted(keys, key=lambda k: (model[k]["c"], model[k]["n"])), "groups": groups}
     if "iter_docs" in want:
-        out["iter_docs"] = {"iter_docs": dict((k, dict((f, model[k][f]) for f in ("id", "t", "n", "k")
+        out["iter_docs"] = {"iter_docs": dict((k, dict((f, model[k][f]) for f in STORED
                                                         if model[k].get(f) is not None)) for k in keys),
                             "docnums_are_all_doc_ids": True, "all_stored_fields": keys}
     if "positions" in want:
@@ -435,7 +477,7 @@ def expected(model, parts=None):
     if "documents" in want:
         sample = sorted(set(keys[:1] + keys[len(keys) // 2:len(keys) // 2 + 1] + keys[-1:])) + ["nokey"]
         out["documents"] = {
-            "document": dict((k, None if k not in model else dict((f, model[k][f]) for f in ("id", "t", "n", "k")
+            "document": dict((k, None if k not in model else dict((f, model[k][f]) for f in STORED
                                                                    if model[k].get(f) is not None)) for k in sample),
             "document_number": dict((k, k if k in model else None) for k in sample),
             "documents_k_red": [k for k in keys if "red" in (model[k].get("k") or "").split()]}
@@ -507,6 +549,7 @@ class History(object):
         self.nevents = 0
         self.merges = []             # generations at which segments disappeared
         self.nremoves = 0            # remove events of segment files so far
+        self.extras0 = set()
 
     def on_event(self, n, kind, name, detail=None):
         s = self.sched
@@ -592,6 +635,19 @@ class History(object):
                     m[op[1]["id"]] = op[1]
         return m
 
+    def extras(self, gen):
+        """Fields added by add_field() and not removed again, as of generation `gen`."""
+        x = set(self.extras0)
+        for c in sorted(self.commits, key=lambda c: (c["gen"], c["n"])):
+            if c["gen"] > gen:
+                break
+            for sop in ((c["tx"] or {}).get("schema_ops") or ()):
+                if sop[0] == "addf":
+                    x.add(sop[1])
+                else:
+                    x.discard(sop[1])
+        return x
+
     def known_generations(self):
         return [self.g0] + [c["gen"] for c in self.commits]
 
@@ -608,7 +664,7 @@ class DocGen(object):
         rng.shuffle(self.nvals)
         self.by_n = {}
 
-    def doc(self, key=None):
+    def doc(self, key=None, extras=()):
         rng = self.rng
         if key is None:
             self.nkey += 1
@@ -617,6 +673,9 @@ class DocGen(object):
         d["c"] = d["n"] % 5         # derived (no draw): the value of the column-only field, 5 groups
         if rng.random() < 0.5:
             d["k"] = " ".join(sorted(rng.sample(["red", "green", "blue"], rng.randint(1, 2))))
+        for x in sorted(extras):    # fields added by add_field(): about 2/3 of the documents get a value
+            if rng.random() < 0.67:
+                d[x] = rng.choice(["hello", "world", "hello world"])
         self.by_n[d["n"]] = d       # n is unique per document VERSION: identifies a physically present deleted document
         return d
 
@@ -624,14 +683,14 @@ class DocGen(object):
 TX_KINDS = ["append", "append", "default", "default", "optimize", "delete-only", "update", "clear", "empty", "cancel"]
 
 
-def gen_tx(rng, docgen, live_keys, kind=None):
+def gen_tx(rng, docgen, live_keys, kind=None, extras=()):
     kind = kind or rng.choice(TX_KINDS)
     ops = []
     live = sorted(live_keys)
     if kind in ("append", "default", "optimize", "clear", "cancel"):
         # a CLEAR without additions leaves an index without segments (EmptyReader)
         for _ in range(rng.randint(0 if kind == "clear" and rng.random() < 0.4 else 1, 3)):
-            ops.append(("add", docgen.doc()))
+            ops.append(("add", docgen.doc(extras=extras)))
         if live and kind != "clear" and rng.random() < 0.4:
             ops.append(("del", rng.choice(live)))
     elif kind == "delete-only":
@@ -640,9 +699,34 @@ def gen_tx(rng, docgen, live_keys, kind=None):
                 ops.append(("del", k))
     elif kind == "update":
         if live:
-            ops.append(("upd", docgen.doc(rng.choice(live))))
-        ops.append(("add", docgen.doc()))
+            ops.append(("upd", docgen.doc(rng.choice(live), extras=extras)))
+        ops.append(("add", docgen.doc(extras=extras)))
     return {"kind": kind, "ops": ops}
+
+
+# schema transactions (only in schedules whose index handles were all obtained through Storage.open_index(), i.e. no
+# Schema object is shared between writers and readers): add_field(x<n>, TEXT(stored=True)) + documents that use the new
+# field, committed without merging (the readers of the old segments stay re-usable for refresh()) or with the default
+# merge; remove_field(x<n>) (+ possibly a document). A field name is never used twice in a schedule.
+def gen_schema_tx(rng, docgen, live_keys, extras, env):
+    extras = sorted(extras)
+    ops = []
+    if extras and (len(extras) >= 2 or rng.random() < 0.4):
+        x = rng.choice(extras)
+        rest = [e for e in extras if e != x]
+        for _ in range(rng.randint(0, 1)):
+            ops.append(("add", docgen.doc(extras=rest)))
+        return {"kind": "remove-field", "ops": ops, "schema_ops": [("remf", x)]}
+    env.nfields += 1
+    x = "x%d" % env.nfields
+    for i in range(rng.randint(1, 2)):
+        d = docgen.doc(extras=extras)
+        d[x] = rng.choice(["hello", "world", "hello world"]) if i else rng.choice(["hello", "hello world"])
+        ops.append(("add", d))
+    live = sorted(live_keys)
+    if live and rng.random() < 0.3:
+        ops.append(("del", rng.choice(live)))
+    return {"kind": rng.choice(["add-field", "add-field", "add-field-merge"]), "ops": ops, "schema_ops": [("addf", x)]}
 
 
 # transactions that change the deletion SET of existing segments by document number (all committed with merge=False, so
@@ -671,7 +755,7 @@ def segment_view(w):
     return out
 
 
-def gen_seg_tx(rng, docgen, live_keys, view, kind):
+def gen_seg_tx(rng, docgen, live_keys, view, kind, extras=()):
     """A transaction of one of SEG_TX_KINDS over the writer's segments (`view`); when the index has no suitable deleted
     document yet it degrades to a deletion by number (kind 'deldoc-only'), which makes later swaps possible."""
     live = set(live_keys)
@@ -689,7 +773,7 @@ def gen_seg_tx(rng, docgen, live_keys, view, kind):
                     ops.append(("deldoc", r[1], r[0]))
                 break
         for _ in range(rng.randint(1, 2)):
-            ops.append(("add", docgen.doc()))
+            ops.append(("add", docgen.doc(extras=extras)))
         return {"kind": kind, "ops": ops}
     if kind == "undelete":
         pool = [c for c in cands if c[1]]
@@ -707,7 +791,7 @@ def gen_seg_tx(rng, docgen, live_keys, view, kind):
             ops.append(("deldoc", r2[1], r2[0]))
             if kind == "swapdel-append":
                 for _ in range(rng.randint(1, 2)):
-                    ops.append(("add", docgen.doc()))
+                    ops.append(("add", docgen.doc(extras=extras)))
             return {"kind": kind, "ops": ops, "segment": view[si][0]}
     pool = [r for c in cands for r in c[2]]
     if pool:
@@ -717,6 +801,12 @@ def gen_seg_tx(rng, docgen, live_keys, view, kind):
 
 
 def apply_tx(w, tx):
+    for sop in tx.get("schema_ops") or ():
+        if sop[0] == "addf":
+            from whoosh import fields
+            w.add_field(sop[1], fields.TEXT(stored=True))
+        else:
+            w.remove_field(sop[1])
     for op in tx["ops"]:
         if op[0] == "add":
             w.add_document(**op[1])
@@ -736,9 +826,9 @@ def finish_tx(w, tx):
     if kind == "cancel":
         w.cancel()
     elif kind in ("append", "delete-only", "update", "empty", "undelete", "swapdel", "swapdel-append",
-                  "olddel-append", "deldoc-only"):
+                  "olddel-append", "deldoc-only", "add-field", "remove-field"):
         w.commit(merge=False)
-    elif kind == "default":
+    elif kind in ("default", "add-field-merge"):
         w.commit()
     elif kind == "optimize":
         w.commit(optimize=True)
@@ -749,7 +839,7 @@ def finish_tx(w, tx):
 
 
 def slim_tx(tx):
-    return {"kind": tx["kind"], "compound": tx.get("compound"),
+    return {"kind": tx["kind"], "compound": tx.get("compound"), "schema_ops": tx.get("schema_ops"),
             "ops": [(op[0], op[1] if op[0] in ("del", "deldoc") else op[1]["id"]) + tuple(op[2:]) for op in tx["ops"]]}
 
 
@@ -778,11 +868,14 @@ def writer_thread(env, k):
             ctx.count("writer.lockerror")
             continue
         live = H.model(w.generation - 1)
-        if rng.random() < 0.3:
+        extras = H.extras(w.generation - 1)
+        if env.schema_tx and rng.random() < 0.3:
+            tx = gen_schema_tx(rng, env.docgen, live, extras, env)
+        elif rng.random() < 0.3:
             # deletion-set changes by document number (un-delete, same-count swap, old segment only + appended segment)
-            tx = gen_seg_tx(rng, env.docgen, live, segment_view(w), rng.choice(SEG_TX_KINDS))
+            tx = gen_seg_tx(rng, env.docgen, live, segment_view(w), rng.choice(SEG_TX_KINDS), extras)
         else:
-            tx = gen_tx(rng, env.docgen, live)
+            tx = gen_tx(rng, env.docgen, live, extras=extras)
         tx["compound"] = bool(w.compound)
         env.txlog.append((k, j, slim_tx(tx)))
         ctx.count("tx.kind." + tx["kind"])
@@ -875,13 +968,15 @@ def judge(env, monitor, what, reader, got, errs, exp, base_w, parts_checked, n0=
 
 
 def _pclass(part):
+    if part in ("schema", "extra_fields", "extra_search"):
+        return "schema-part"
     return "column-backed-part" if part in COLUMN_BACKED else "term-index-part"
 
 
 def open_searcher(env, rng, info, refresh_from=None):
     """ix.searcher() or searcher.refresh(), possibly parked inside for a transaction-long pause.
     Returns (searcher, completed_before) or (None, ...) when it raised (failure recorded)."""
-    H, s, ix, ctx = env.H, env.sched, env.ix, env.ctx
+    H, s, ix, ctx = env.H, env.sched, env.rix, env.ctx
     tid = s.current()
     with s.atomic():
         completed_before = H.completed
@@ -1002,7 +1097,7 @@ def check_fresh(env, what, sr, completed_before, info, content=True):
     errs = {}
     n0 = env.tap.n
     fp = fingerprint(sr, parts=OPEN_PARTS, errors=errs)
-    exp = expected(model, parts=OPEN_PARTS)
+    exp = expected(model, parts=OPEN_PARTS, extras=H.extras(g))
     ctx.count(what + ".content_evals")
     if not judge(env, "commit-state", what, r, comparable(fp), errs, exp, w, OPEN_PARTS, n0, parts_read_ok(sr)):
         return None if env.stop else "known"
@@ -1025,7 +1120,7 @@ def _drop(sr):
 
 def reader_thread(env, k):
     rng = random.Random("c03-reader:%s:%d" % (env.tag, k))
-    H, s, ix, ctx = env.H, env.sched, env.ix, env.ctx
+    H, s, ix, ctx = env.H, env.sched, env.rix, env.ctx
     it = 0
     final_done = False
     sr = None
@@ -1068,7 +1163,8 @@ def reader_thread(env, k):
         if mode == "pretouched":
             n0 = env.tap.n
             fp0 = fingerprint(sr, errors=errs0)
-            if not judge(env, "held-snapshot", "probe-at-open", r, comparable(fp0), errs0, expected(model), w, ALL_PARTS,
+            if not judge(env, "held-snapshot", "probe-at-open", r, comparable(fp0), errs0, expected(model, extras=H.extras(g)), w,
+                         ALL_PARTS,
                          n0, parts_read_ok(sr)):
                 if env.stop:
                     break
@@ -1106,7 +1202,8 @@ def reader_thread(env, k):
         n0 = env.tap.n
         fp1 = fingerprint(sr, errors=errs1)
         ctx.count("held.evals")
-        if not judge(env, "held-snapshot", "probe-after-hold", r, comparable(fp1), errs1, expected(model), w, ALL_PARTS,
+        if not judge(env, "held-snapshot", "probe-after-hold", r, comparable(fp1), errs1, expected(model, extras=H.extras(g)),
+                     w, ALL_PARTS,
                      n0, parts_read_ok(sr)):
             if env.stop:
                 break
@@ -1377,6 +1474,12 @@ def run_thread_case(ctx, idx, rng, lines=False):
     sseed = rng.randrange(1 << 30)
     wb = {"case": idx, "storage": storage, "layout": layout, "writers": nwriters, "readers": nreaders,
           "tx_per_writer": ntx, "policy": pol, "sched_seed": sseed}
+    # schema transactions (add_field / remove_field): then EVERY index handle comes from Storage.open_index(), so that
+    # no Schema object is shared between the writers and the readers (each TOC read unpickles its own)
+    schema_tx = rng.random() < 0.35
+    wb["schema_transactions"] = schema_tx
+    if schema_tx:
+        ctx.count("schema.schedules")
     line_prob = None
     if lines:
         line_prob = rng.choice([0.02, 0.1, 0.3, 0.6])
@@ -1429,6 +1532,10 @@ def run_thread_case(ctx, idx, rng, lines=False):
         env = Env()
         env.ctx, env.H, env.sched, env.ix, env.tap, env.wb = ctx, H, s, ix, tap, wb
         env.storage = st
+        env.rix = ix
+        env.schema_tx, env.nfields = schema_tx, 0
+        if schema_tx:
+            env.ix, env.rix = st.open_index(), st.open_index()
         env.layout, env.compound_for, env.docgen = layout, compound_for, docgen
         env.ntx, env.nwriters, env.writers_done, env.stop = ntx, nwriters, 0, False
         env.max_iters = ctx.pick(25, 40)
